@@ -192,7 +192,7 @@ def run(res, tier, seed, replay):
     res.coverage["traces_validated_against_impl"] = n_corr
     # --- 5. conservativity on fixtures: a ban of a kind that does not occur changes nothing
     files = [f for f in S.fixture_files() if "/err" not in f]
-    sample = rng.sample(files, 60 if quick else 600)
+    sample = rng.sample(files, min(len(files), 60 if quick else 600))
     l0, l1, meta = [], [], []
     for f in sample:
         t = open(f, "rb").read()
